@@ -29,7 +29,7 @@ func TestVerifFilter(t *testing.T) {
 	t0 := time.Now()
 	prop := os.Getenv("VERIF_PROP")
 	res := vNew(prop, "overlay test in package main of apps/rtcmfilter: the real HandleMessages on mixed streams (valid frames of decodable and other types, corrupted frames, "+
-		"junk) through chunked readers (a third of them returning their last bytes together with the end-of-file error), for the four display/record switch combinations, with writer latencies 0/1/5 ms (C11: 1/5/20 ms, and a writer that stalls for 8 s - thorough 35 s - on the write that completes the output); at the instant HandleMessages returns: output bytes == concatenation of the valid "+
+		"junk) through chunked readers (a third of them returning their last bytes together with the end-of-file error), for the four display/record switch combinations, with writer latencies 0/1/5 ms (C11: 1/5/20 ms, and a writer that stalls for 8 s - thorough 35 s - on the write that completes the output, and in another case on the very first write); at the instant HandleMessages returns: output bytes == concatenation of the valid "+
 		"frames == typed messages of sequential framing, record file == output, readable log has one entry per message; non-trivial = at least one valid frame; distinct = distinct stream")
 	r := rand.New(rand.NewSource(res.Seed))
 	start := time.UnixMilli(1683979200000).UTC()
@@ -42,8 +42,10 @@ func TestVerifFilter(t *testing.T) {
 		bs, frames := vStream(r, res.n(60, 400))
 		// the last case(s): the writer stalls for seconds on the write that completes the output
 		var stall time.Duration
-		if prop == "C11" && i >= n-res.n(1, 2) {
+		stallFirst := false
+		if prop == "C11" && i >= n-2 {
 			stall = time.Duration(res.n(8, 35)) * time.Second
+			stallFirst = i == n-2 // the last but one case: the stall hits the FIRST write, with more messages to come
 		}
 		stray := i%5 == 4 && stall == 0
 		if stray {
@@ -71,6 +73,7 @@ func TestVerifFilter(t *testing.T) {
 			delay, _ = time.ParseDuration(rp["delay"])
 			chunks = vInts(rp["chunks"])
 			stall, _ = time.ParseDuration(rp["stall"])
+			stallFirst = rp["stallfirst"] == "true"
 			cfg.DisplayMessages, cfg.RecordMessages = display, record
 		}
 		var inputDone int32
@@ -80,6 +83,9 @@ func TestVerifFilter(t *testing.T) {
 				stallAt += len(sg.raw)
 			}
 		}
+		if stallFirst {
+			stallAt = 1
+		}
 		w := &slowWriter{delay: delay, stall: stall, stallAt: stallAt}
 		class := fmt.Sprintf("display=%v,record=%v", display, record)
 		if stall > 0 {
@@ -88,7 +94,7 @@ func TestVerifFilter(t *testing.T) {
 		if stray {
 			class += ",stray-start-bytes"
 		}
-		op := fmt.Sprintf("filter display=%v record=%v delay=%v stall=%v chunks=%s stream=%s", display, record, delay, stall, vIntsText(chunks), vhx(bs))
+		op := fmt.Sprintf("filter display=%v record=%v delay=%v stall=%v stallfirst=%v chunks=%s stream=%s", display, record, delay, stall, stallFirst, vIntsText(chunks), vhx(bs))
 		failure := ""
 		vMark(op)
 		func() {
